@@ -157,10 +157,18 @@ func runCase(t *testing.T, c lookupCase, keys []uint32, builds int, record bool)
 func genCase(rt *rapid.T) lookupCase {
 	c := lookupCase{ZA: rapid.Bool().Draw(rt, "zoneAware"), RF: rapid.IntRange(1, 5).Draw(rt, "rf")}
 	var zones []string
+	maxN := 8
 	if c.ZA {
 		zones = []string{"a", "b", "c", "d", "e"}[:rapid.IntRange(1, 5).Draw(rt, "zones")]
+		if rapid.IntRange(0, 5).Draw(rt, "manyZones") == 0 {
+			// more zones than most deployments have (per-zone bookkeeping sized for "a few" zones)
+			zones = []string{"a", "b", "c", "d", "e", "f", "g", "h", "i"}[:rapid.IntRange(6, 9).Draw(rt, "zonesMany")]
+			c.RF = rapid.IntRange(1, len(zones)).Draw(rt, "rfMany")
+			maxN = 14
+			vx.Class("rings_with_six_or_more_zones", 1)
+		}
 	}
-	c.Ins = gen.Instances(rt, gen.Opts{MinN: 0, MaxN: 8, Zones: zones, MinTok: 0, MaxTok: 4, HealthyBias: rapid.Bool().Draw(rt, "healthyBias"), ReadOnly: rapid.Bool().Draw(rt, "someReadOnly")})
+	c.Ins = gen.Instances(rt, gen.Opts{MinN: 0, MaxN: maxN, Zones: zones, MinTok: 0, MaxTok: 4, HealthyBias: rapid.Bool().Draw(rt, "healthyBias"), ReadOnly: rapid.Bool().Draw(rt, "someReadOnly")})
 	if c.ZA && rapid.IntRange(0, 3).Draw(rt, "someUnzoned") == 0 {
 		// zone-awareness on with members that carry no zone (a ring in migration): they are in no zone
 		for i := range c.Ins {
